@@ -458,6 +458,56 @@ def literal_factory(n):
     return LiteralClassSpec(n)
 
 
+def gleam_string(bs):
+    """valid Gleam string literal of exactly len(bs) bytes: '"' body '"' where the body is a sequence of ordinary characters (anything but '"' and
+    '\\', line breaks included) and escapes '\\' + one of " \\ f n r t.  (\\u{..} escapes are left out: they need >= 6 body bytes.)  Written as a
+    left-to-right scan over the bytes: esc[i] = 'byte i is the second byte of an escape'"""
+    n = len(bs)
+    if n < 2:
+        return z3.BoolVal(False)
+    conds = [bs[0] == 0x22, bs[n - 1] == 0x22]
+    esc_prev = z3.BoolVal(False)          # is byte i-1 a backslash that STARTS an escape?
+    for i in range(1, n - 1):
+        b = bs[i]
+        is_bs = b == 0x5C
+        ok_escape_char = z3.Or([b == c for c in (0x22, 0x5C, ord('f'), ord('n'), ord('r'), ord('t'))])
+        # if the previous byte opened an escape this byte must be an escape character and does not open one itself
+        conds.append(z3.If(esc_prev, ok_escape_char, z3.And(b != 0x22)))
+        esc_prev = z3.And(z3.Not(esc_prev), is_bs)
+    conds.append(z3.Not(esc_prev))        # the closing quote is not escaped
+    return z3.And(conds)
+
+
+class StringClassSpec(synspecs.LexStepSpec):
+    """every valid Gleam string literal of n bytes (escapes included, in particular an escaped backslash right before the closing quote) is ONE STRING token"""
+
+    def run_path(self, it):
+        n = self.n
+        src = [IntV(b, 8, 0) for b in self.bs]
+        gl = Agg('struct', 'GleamLexer', None, [LexerV(src)])
+        r = it.run_body(self.next, [RefV([gl], 0)])
+        single = None
+        if r.variant == 'Some':
+            tok = r.fields[0]; k = tok.fields[0]
+            e = models.tsz(tok.fields[2].fields[1]).v
+            if e == n:
+                single = (k.v == syn.KINDS['STRING'])
+        ref = gleam_string(self.bs)
+        cond = z3.BoolVal(False) if single is True else ref
+        rr, m = it.check(cond)
+        rec = {'ok': True, 'cls': 'string' if single is True else 'other'}
+        if rr == z3.sat:
+            w = bytes(m.eval(b, model_completion=True).as_long() for b in self.bs)
+            rec = {'cls': 'violation', 'ok': False, 'why': ['C04: the string literal %r is not lexed as one STRING token' % w.decode('utf-8', 'replace')], 'cex': {'bytes': w.hex()}}
+        else:
+            rec['sample'] = {'text': self.witness(it).hex(), 'class': rec['cls']}
+        return rec
+
+
+def string_factory(n):
+    return StringClassSpec(n)
+
+
 def confirm(chk, res, oracle, sp, label):
     for v in res.violations:
         kinds = [syn.KINDS[k] for k in v['cex']['kinds']]
@@ -510,6 +560,16 @@ def main(tier, seed):
             toks = nat.get('tokens') if isinstance(nat, dict) else None
             okc = not (toks and len(toks) == 1 and toks[0][0] == syn.KINDS['INTEGER'])
             chk.violation('lexer:integer-literal', 'bounded', '%s; native lexer on %r: %s' % (v['why'][0], txt, toks), {'text': txt}, confirmed=okc)
+            break
+    for n in range(2, (6 if tier == 'quick' else 7) + 1):
+        res, complete = explore.explore(string_factory, (n,), jobs=jobs)
+        chk.add_run('string literals of %d bytes (escapes included) through the real lexer' % n, res, complete, {'bytes': n}, nontrivial_classes=lambda c: c == 'string')
+        for v in res.violations:
+            txt = bytes.fromhex(v['cex']['bytes']).decode('utf-8', 'replace')
+            nat = oracle.ask('lex', txt)
+            toks = nat.get('tokens') if isinstance(nat, dict) else None
+            okc = not (toks and len(toks) == 1 and toks[0][0] == syn.KINDS['STRING'])
+            chk.violation('lexer:string-literal', 'bounded', '%s; native lexer on %r: %s' % (v['why'][0], txt, toks), {'text': txt}, confirmed=okc)
             break
     for pname in PROGRAMS:
         res, complete = explore.explore(program_factory, (pname,), jobs=jobs)
